@@ -418,7 +418,7 @@ func (s *Sched) fireDue() {
 			continue
 		}
 		t.fired = true
-		v := timeVal{BV(t.deadline, 64)}
+		v := timeVal{ns: BV(t.deadline, 64)}
 		ch := t.ch
 		if len(ch.recvq) > 0 {
 			w := ch.recvq[0]
